@@ -255,20 +255,32 @@ def main(argv=None):
         if new_viol > 5:
             print("  (also) clause=%s sig=%s seeds=%s" % (clause, sig, [x["seed"] for x in rs[:5]]))
             continue
-        r = min(rs, key=lambda r: len(json.dumps(r.get("case"), default=_jsondefault)))
-        case = json.loads(json.dumps(r["case"], default=_jsondefault))
-        note = "unminimised"
-        if not a.no_minimise:
-            try:
-                case, tried = minimise(check, case, clause)
-                note = "minimised (%d candidates tried)" % tried
-            except Exception as e:   # minimisation is best effort
-                note = "minimisation failed: %r" % (e,)
-        path = write_replay(check, case, [v0], note)
-        # confirm in a fresh process
-        p = subprocess.run([sys.executable, os.path.join(VERIF, "check"), check, "--replay", path],
-                           capture_output=True, text=True, timeout=900)
-        confirmed = ("VIOLATION property=%s" % prop) in p.stdout
+        # a violation is reported only with a replay file that reproduces it alone in a fresh process (several runs share
+        # one forked child; a violation that needs state left behind by an earlier run of that child is not replayable)
+        confirmed, path, note = False, None, ""
+        for r in sorted(rs, key=lambda r: len(json.dumps(r.get("case"), default=_jsondefault)))[:3]:
+            case = json.loads(json.dumps(r["case"], default=_jsondefault))
+            note = "unminimised"
+            if not a.no_minimise:
+                try:
+                    case, tried = minimise(check, case, clause)
+                    note = "minimised (%d candidates tried)" % tried
+                except Exception as e:   # minimisation is best effort
+                    note = "minimisation failed: %r" % (e,)
+            path = write_replay(check, case, [v0], note)
+            p = subprocess.run([sys.executable, os.path.join(VERIF, "check"), check, "--replay", path],
+                               capture_output=True, text=True, timeout=900)
+            confirmed = ("VIOLATION property=%s" % prop) in p.stdout
+            if confirmed:
+                break
+            os.unlink(path)
+        if not confirmed:
+            print("HARNESS-ERROR check=%s clause=%s sig=%s seeds=%s: seen inside a batch child but not reproduced when the case is replayed "
+                  "alone in a fresh process (state carried over between runs of one child?) -- not reported as a violation" % (
+                      check, clause, sig, [x["seed"] for x in rs[:5]]))
+            new_viol -= 1
+            rc = rc or 2
+            continue
         print("VIOLATION property=%s replay=%s" % (prop, path))
         print("  clause=%s sig=%s seeds=%s confirmed_in_fresh_process=%s %s" % (
             clause, sig, [x["seed"] for x in rs[:5]], confirmed, note))
